@@ -572,12 +572,12 @@ func (s *AbsfsNFS) CreateWithContext(ctx context.Context, dir *NFSNode, name str
 		return nil, fmt.Errorf("create: failed to create %s: %w", path, err)
 	}
 	if err := f.Close(); err != nil {
-		s.fs.Remove(path)
+		s.undoCreate(dir.path, path)
 		return nil, fmt.Errorf("create: failed to close %s: %w", path, err)
 	}
 
 	if err := s.fs.Chmod(path, attrs.Mode&os.ModePerm); err != nil {
-		s.fs.Remove(path)
+		s.undoCreate(dir.path, path)
 		return nil, fmt.Errorf("create: failed to chmod %s: %w", path, err)
 	}
 
@@ -590,10 +590,22 @@ func (s *AbsfsNFS) CreateWithContext(ctx context.Context, dir *NFSNode, name str
 	}
 	node, err := s.Lookup(path)
 	if err != nil {
-		s.fs.Remove(path) // a failed request leaves nothing behind, as for the close and chmod failures above
+		s.undoCreate(dir.path, path) // a failed request leaves nothing behind, as for the close and chmod failures above
 		return nil, err
 	}
 	return node, nil
+}
+
+// undoCreate removes an object whose creation could not be completed and drops
+// whatever a concurrent request cached about it (or its directory's listing)
+// while it existed.
+func (s *AbsfsNFS) undoCreate(dirPath, path string) {
+	s.fs.Remove(path)
+	s.attrCache.Invalidate(dirPath)
+	s.attrCache.InvalidateTree(path)
+	if s.dirCache != nil {
+		s.dirCache.Invalidate(dirPath)
+	}
 }
 
 // Remove implements the REMOVE operation
@@ -1009,7 +1021,7 @@ func (s *AbsfsNFS) Symlink(dir *NFSNode, name string, target string, attrs *NFSA
 	}
 	node, err := s.Lookup(path)
 	if err != nil {
-		s.fs.Remove(path) // a failed request leaves nothing behind
+		s.undoCreate(dir.path, path) // a failed request leaves nothing behind
 		return nil, err
 	}
 	return node, nil
